@@ -3,7 +3,8 @@ C13 — Full cleaning removes only noise and keeps the program's structure.   (P
 
 Property theorems only. The model is lean/Paroxy/Model/Cleanup.lean: the text passes of `Cleanup` as
 structural functions (R2) and the token loop of `full_cleaning` taking the TOKEN LIST as input. It mirrors
-/repo after the repairs e959b88 (F08), ff0b849 (F18), decc026 (F21), 2488bc4 (F19), 466f14f (F22+F23).
+/repo after the repairs e959b88 (F08), ff0b849 (F18), decc026 (F21), 2488bc4 (F19), 466f14f (F22+F23),
+55c4b14 (F33).
 
 PROVED here, for every text and every token list (not only those CPython's tokenizer can produce):
   * no line of the result is empty or blank                                   (C13_no_blank_line)
@@ -20,8 +21,8 @@ PROVED here, for every text and every token list (not only those CPython's token
                                                                                C13_pass_pass_idempotent)
   * still open (finding F20): `suppress_main_guard` deletes everything from the guard to the end of the
     text                                        (C13_main_guard_partial, C13_main_guard_counterexample)
-  * still open (finding F25): a backslash-continued line that starts at column 0 is glued to the
-    previous token                    (C13_rows_not_glued_partial, C13_rows_not_glued_counterexample)
+  * a token on a later row inside an open logical line (backslash continuation) is kept apart from
+    the previous one, column 0 included — repair 55c4b14                     (C13_rows_not_glued)
 
 NOT provable here (CPython's tokenizer and parser are outside the model) — exercised only by
 harness/c13.py: the result is valid Python with the same AST modulo the four kinds of noise, invariance
@@ -278,37 +279,49 @@ theorem C13_main_guard_counterexample : ¬ C13_main_guard := by
   revert this
   decide
 
-/-! ## Explicit line joining (finding F25, open) -/
+/-! ## Explicit line joining (finding F33, repaired by 55c4b14) -/
 
-/-- What the tree-preservation clause needs from the padding: two word tokens standing on different
-rows of the source (a backslash continuation: there is no NEWLINE / NL token between them) are kept
-apart in the output. -/
-def C13_rows_not_glued : Prop :=
-  ∀ (st : LoopState) (t : Token) (nx : Option Kind),
-    t.kind = .other → t.srow > st.perow → 0 < (step st t nx).2.pad
-
-/-- **C13 (rows not glued), partial.** Hypothesis = complement of finding 25's input class: the
-continuation line does not start at column 0. -/
-theorem C13_rows_not_glued_partial (st : LoopState) (t : Token) (nx : Option Kind)
-    (hk : t.kind = .other) (hr : t.srow > st.perow) (hc : 0 < t.scol) : 0 < (step st t nx).2.pad := by
-  unfold step
-  simp only [hk, hr, if_true]
-  have : (t.scol - 0).toNat = t.scol.toNat := by simp
-  simp [this]
+/-- **C13 (rows not glued)** — FULL since repair 55c4b14. A token that starts on a later row than the
+previous one ended while the logical line is still open (a backslash continuation: no NEWLINE / NL
+token in between) is preceded by at least one space, whatever its column — column 0 included. -/
+theorem C13_rows_not_glued (st : LoopState) (t : Token) (nx : Option Kind)
+    (ho : st.lineOpen = true) (hr : t.srow > st.perow) : 0 < (step st t nx).2.pad := by
+  have hp : (step st t nx).2.pad =
+      (if t.srow > st.perow ∧ st.lineOpen = true then 1 else 0) +
+        (t.scol - (if t.srow > st.perow then 0 else st.pecol)).toNat := by
+    unfold step
+    simp only
+    split
+    · split <;> rfl
+    · split
+      · rfl
+      · split <;> rfl
+  rw [hp, if_pos ⟨hr, ho⟩]
   omega
 
-example : (0 : Int) < (⟨.other, "done".toList, 2, 8, 2, 12⟩ : Token).scol := by decide
+/-- The logical line is open exactly after a token that is neither NEWLINE nor NL (a dropped comment
+leaves the flag as it was). -/
+theorem C13_line_open (st : LoopState) (t : Token) (nx : Option Kind) :
+    (step st t nx).1.lineOpen =
+      if t.kind = .comment ∧ isHint t.str = false then st.lineOpen
+      else !(t.kind == .newline || t.kind == .nl) := by
+  unfold step
+  simp only [isHint]
+  by_cases hc : t.kind = .comment
+  · by_cases hn : (normalizeComment t.str).2 = 0
+    · simp [hc, hn]
+    · simp [hc, hn]
+  · simp only [hc, if_false, false_and]
+    split
+    · rfl
+    · split <;> rfl
 
-/-- **Finding 25 at model level.** `else \` / `second`: the second line starts at column 0, no
-padding is emitted, the output reads `elsesecond`. -/
-theorem C13_rows_not_glued_counterexample : ¬ C13_rows_not_glued := by
-  intro h
-  have := h ⟨.other, 1, 22⟩ ⟨.other, "second".toList, 2, 0, 2, 6⟩ (some .newline) rfl (by decide)
-  revert this
-  decide
-
+/-- `else \` / `second` at column 0: the former counter-example. -/
 example : loopText [⟨.other, "else".toList, 1, 0, 1, 4⟩, ⟨.other, "second".toList, 2, 0, 2, 6⟩] =
-    "elsesecond".toList := by decide
+    "else second".toList := by decide
+/-- a token at column 0 after a NEWLINE gets no extra space -/
+example : loopText [⟨.other, "x".toList, 1, 0, 1, 1⟩, ⟨.newline, "\n".toList, 1, 1, 1, 2⟩,
+    ⟨.other, "y".toList, 2, 0, 2, 1⟩] = "x\ny".toList := by decide
 
 /-! ## The two final text passes -/
 
